@@ -234,6 +234,42 @@ fn explore(api: &Api, setting_ix: usize, tier: Tier, seed: u64, cx: &mut Cx) {
         }
     }
     // (iii) across runs
+    // (v) every BYTE of every random value varies: each operation on 14 further independent generators; a byte of a
+    // random field that is the same on all of them (an OPRF seed of which only the first 32 bytes are drawn, a nonce with
+    // a constant tail) is not random.  First and last byte of scalars / group elements are exempt (format octets, the
+    // top byte of a P-521 scalar).
+    if setting_ix == 0 {
+        for op in OPS {
+            let mut samples: std::collections::BTreeMap<String, Vec<Vec<u8>>> = std::collections::BTreeMap::new();
+            for k in 0..14 {
+                let mut tv = Tape::new(&format!("seed{}/c17/{}/var/{}", seed, op, k));
+                cx.edges += 1;
+                if let Ok(r) = run_op(api, &fx, op, &mut tv) {
+                    for (n, v) in r.0 {
+                        samples.entry(n).or_default().push(v);
+                    }
+                }
+            }
+            for (field, vals) in samples {
+                if vals.len() < 12 || vals.iter().any(|v| v.len() != vals[0].len()) {
+                    continue;
+                }
+                let uniform = ["oprf_seed", "nonce", "envelope_tag", "export_key", "server_mac", "session_key", "masked_response"].iter().any(|u| field.contains(u));
+                let len = vals[0].len();
+                let range = if uniform { 0..len } else { 1..len.saturating_sub(1) };
+                cx.begin_case(json!({"check": "every byte varies", "op": op, "field": field, "generators": vals.len()}));
+                cx.state(&("bytevar", op, &field));
+                cx.path();
+                let constant: Vec<usize> = range.filter(|j| vals.iter().all(|v| v[*j] == vals[0][*j])).collect();
+                if constant.is_empty() {
+                    cx.outcome("every-byte-varies");
+                } else {
+                    cx.outcome("CONSTANT-BYTES");
+                    cx.violate(&format!("{}/constant-bytes/{}", op, field), format!("bytes {:?} of random field {} are the same on {} independent generators: they do not come from the supplied RNG", if constant.len() > 8 { constant[..8].to_vec() } else { constant.clone() }, field, vals.len()));
+                }
+            }
+        }
+    }
     cx.begin_case(json!({"check": "coincidences across runs", "values": all_values.len()}));
     let mut sorted: Vec<&(String, Vec<u8>)> = all_values.iter().collect();
     sorted.sort_by(|a, b| a.1.cmp(&b.1));
